@@ -5,7 +5,7 @@ import ast
 from typing import Dict, List, Optional, Set, Tuple
 
 from ..dataflow import DefUse
-from ..index import AnalysisError, FuncInfo, Index, call_name, norm, walk_no_nested
+from ..index import AnalysisError, FuncInfo, Index, call_name, norm, str_consts, walk_no_nested
 from ..report import Report
 from ..rules import cfg_nodes_with_call, cfg_of, guards_dominating, path_text
 
@@ -239,6 +239,50 @@ def c06(idx: Index, rep: Report, tier: str) -> None:
     rep.count("bound_condition_sites", n)
 
 
+def metrics_rekeyed_when_actions_replaced(idx: Index, rep: Report, rule: str) -> None:
+    """Sibling agreement among the compilers that start from `problem.clone()` and then `clear_actions()`: the cloned
+    MinimizeActionCosts metric is keyed by the (cloned) actions that were just removed, so a compiler that accepts
+    action costs must rebuild the metric for the actions it adds (`clear_quality_metrics()` on every path to the
+    return, and a MinimizeActionCosts built from the new-to-old map). Otherwise the compiled problem's metric
+    references actions that are not declared in it and the replaced actions lose their cost."""
+    n = 0
+    for ci in idx.classes.values():
+        if not ci.module.name.startswith("unified_planning.engines.compilers."):
+            continue
+        comp = ci.methods.get("_compile")
+        if comp is None:
+            continue
+        cfg = cfg_of(comp)
+        cloned = {a.targets[0].id for a in walk_no_nested(comp.node) if isinstance(a, ast.Assign) and isinstance(a.targets[0], ast.Name) and isinstance(a.value, ast.Call) and call_name(a.value) == "clone"}
+        clears = [(node, c) for node, c in cfg_nodes_with_call(cfg, "clear_actions") if isinstance(c.func, ast.Attribute) and isinstance(c.func.value, ast.Name) and c.func.value.id in cloned]
+        if not clears:
+            continue
+        n += 1
+        rep.note_function(comp.qualname)
+        sk = ci.methods.get("supported_kind")
+        accepts = sk is not None and "ACTIONS_COST" in str_consts(sk.node)
+        if not accepts:
+            rep.ok(rule, f"{ci.name}: does not accept action costs", comp.loc(clears[0][1]), construct=f"{ci.name}.supported_kind without ACTIONS_COST", function=comp.qualname)
+            continue
+        node, c = clears[0]
+        x = c.func.value.id
+        resets = {nd for nd, cc in cfg_nodes_with_call(cfg, "clear_quality_metrics") if isinstance(cc.func, ast.Attribute) and norm(cc.func.value) == x}
+        rets = [nd for nd in cfg.nodes if isinstance(nd.ast, ast.Return)]
+        if not rets:
+            raise AnalysisError(f"{rule}: {comp.qualname} has no return statement")
+        w = None
+        for r in rets:
+            w = w or cfg.path_avoiding(node, r, resets)
+        # rebuilt: metrics are added again to the clone, with a case for the action-cost metric
+        readds = [cc for _, cc in cfg_nodes_with_call(cfg, "add_quality_metric") if isinstance(cc.func, ast.Attribute) and norm(cc.func.value) == x]
+        cased = any(nd.kind == "test" and nd.ast is not None and ("is_minimize_action_costs" in norm(nd.ast) or "MinimizeActionCosts" in norm(nd.ast)) for nd in cfg.nodes)
+        rebuilt = bool(readds) and cased
+        ok = w is None and rebuilt
+        rep.check(ok, rule, f"{ci.name}._compile: the action-cost metric of the clone is rebuilt for the actions that replace the cleared ones", comp.loc(c), construct=f"{x}.clear_actions() with {'no ' if w is not None else ''}{x}.clear_quality_metrics() on every path to return, metric {'rebuilt' if rebuilt else 'not rebuilt'}", detail="" if ok else f"`{x}` is a clone whose MinimizeActionCosts is keyed by the actions removed by clear_actions(); the compiler accepts ACTIONS_COST but returns the clone's metric as it is: the compiled problem references undeclared actions and every replaced action costs nothing", function=comp.qualname, path=path_text(w) if w else None)
+    rep.count("clone_then_clear_actions_compilers", n)
+    rep.require_min(rule, "clone_then_clear_actions_compilers", 6)
+
+
 def c08(idx: Index, rep: Report, tier: str) -> None:
     # (a) names kept from the input are registered before fresh names are drawn against the compiled problem
     rule = "C08.2 kept-names-registered-before-fresh-names"
@@ -275,9 +319,10 @@ def c08(idx: Index, rep: Report, tier: str) -> None:
                 w = w or cfg.path_avoiding(d, node, set())
             rep.check(w is None, rule, f"{ci.name}._compile: add_action({x}) (name kept from the input) happens before any fresh name is drawn", comp.loc(c), construct=f"{norm(c)} reachable after {norm(w[0].ast)[:60] if w else 'no draw'}", detail="" if w is None else f"a fresh name is chosen while `{x}` — an action that keeps its original name — is not yet in the compiled problem: the fresh name X_0 can coincide with a later original action called X_0, and adding that action then fails", function=comp.qualname, path=path_text(w) if w else None)
     rep.count("kept_name_additions", n_sites)
-    # (b) fluents kept by TimedToSequential cover every expression of the metric
-    n = sibling_fields(rep, "C08.4 T23 sibling-fields", [f for f in idx.all_funcs() if f.module.name in ("unified_planning.engines.compilers.timed_to_sequential",)])
-    rep.count("sibling_field_sites", n)
+    metrics_rekeyed_when_actions_replaced(idx, rep, "C08.5 T17 metric-rekeyed-when-actions-replaced")
+    # (b) retired: "TimedToSequential's kept-fluent set reads .default next to .costs" (C08.4 T23). Since the
+    # metric of the compiled problem is rebuilt by updated_minimize_action_costs (fix c774c56) its default is
+    # folded into explicit costs, so reading `.costs` alone is complete there and the clause would be a false alarm.
 
 
 def c11(idx: Index, rep: Report, tier: str) -> None:
